@@ -167,7 +167,8 @@ func (e *exec) judgeImage(o Op, im *image, lower, upper *tsdbmodel.Model) {
 		lower = lower.Clone()
 		lower.TagOOOHeadCells(tsdbmodel.TagWBLSkipped)
 	}
-	if snapshotBehindCheckpoint(dir) {
+	sbc := snapshotBehindCheckpoint(dir)
+	if sbc {
 		// listed finding (ooo-mmap-chunks-dropped-on-duplicate-series-record): recovery loads the series from a chunk
 		// snapshot that is older than the last WAL checkpoint, and the series records replayed from that checkpoint
 		// reset the m-mapped (out-of-order) chunks of the series just loaded
@@ -264,6 +265,16 @@ func (e *exec) judgeImage(o Op, im *image, lower, upper *tsdbmodel.Model) {
 		e.res.Count("tolerated:"+TagDupRefSnapshot, 1)
 		if e.cfg.KF == TagDupRefSnapshot {
 			e.fail("crash-second-reopen", "known:"+TagDupRefSnapshot, "%s: data recovered after the crash changed after a further clean (snapshot) restart: %s", where, d)
+			return
+		}
+	} else if d != "" && !tornWAL && sbc && e.cfg.Snapshot && e.subsetModuloCandidates(got2, got) == "" {
+		// listed finding (ooo-mmap-chunks-dropped-on-duplicate-series-record, in-order shape): the recovery loaded the
+		// series from a chunk snapshot not newer than the last checkpoint; the checkpoint's series records reset the
+		// m-mapped chunks just attached, which stay on disk, and at the next snapshot restart such a chunk makes the
+		// snapshot's (newer) head chunk of the series be discarded
+		e.res.Count("tolerated:"+tsdbmodel.TagOOODupRef, 1)
+		if e.cfg.KF == tsdbmodel.TagOOODupRef {
+			e.fail("crash-second-reopen", "known:"+tsdbmodel.TagOOODupRef, "%s: data recovered after the crash is lost after a further clean (snapshot) restart: %s", where, d)
 			return
 		}
 	} else if d2, _ := e.diffModuloCandidates(got, got2); d != "" && d2 != "" && !tornWAL {
